@@ -22,7 +22,7 @@ struct Sym {
     voiced: bool,
 }
 
-fn state_params(sym: Sym, si: usize, nwin: usize, vlen: usize) -> Vec<(f64, f64)> {
+fn state_params(sym: Sym, si: usize, nwin: usize, vlen: usize, tie_last: bool) -> Vec<(f64, f64)> {
     let mut p = vec![(0.0, 0.0); nwin * vlen];
     for w in 0..nwin {
         for k in 0..vlen {
@@ -30,7 +30,9 @@ fn state_params(sym: Sym, si: usize, nwin: usize, vlen: usize) -> Vec<(f64, f64)
             let v = VARS[sym.var];
             // distinct parameters per component and window; dynamic means non-zero
             let mean = if w == 0 { m * (1.0 - 1.7 * k as f64) + 0.3 * k as f64 } else { 0.1 * m - 0.05 * w as f64 + 0.02 * (si % 3) as f64 + 0.07 * k as f64 };
-            let var = if w == 0 { v * (1.0 + 0.5 * k as f64) } else { v * 0.5 * (1.0 + 0.25 * k as f64) };
+            // `tie_last`: the last window's variances are the same for every component while the other windows' differ
+            // (the matrices of two components then agree in one block only)
+            let var = if w == 0 { v * (1.0 + 0.5 * k as f64) } else if tie_last && w == nwin - 1 { v * 0.5 } else { v * 0.5 * (1.0 + 0.25 * k as f64) };
             p[vlen * w + k] = (mean, var);
         }
     }
@@ -49,7 +51,8 @@ struct Stats {
 fn run_case(syms: &[Sym], wset: usize, vlen: usize, rep: &Report, st: &Stats) {
     let wins = window_set(wset);
     let nwin = wins.len();
-    let states: Vec<(Vec<(f64, f64)>, bool)> = syms.iter().enumerate().map(|(i, s)| (state_params(*s, i, nwin, vlen), s.voiced)).collect();
+    let tie_last = vlen >= 2 && nwin >= 2 && (syms.len() + wset + syms[0].mean) % 3 == 0;
+    let states: Vec<(Vec<(f64, f64)>, bool)> = syms.iter().enumerate().map(|(i, s)| (state_params(*s, i, nwin, vlen, tie_last), s.voiced)).collect();
     let durations: Vec<usize> = syms.iter().map(|s| s.dur).collect();
     let sp = StreamParameter::new(
         states
@@ -207,7 +210,7 @@ fn alphabet(durs: &[usize]) -> Vec<Sym> {
 
 pub fn run(tier: Tier) -> i32 {
     let rep = Report::new("C05", tier, "model_checking");
-    rep.set_rule("SCOPE: full product over 1..N states of per-state symbols (mean in 3 values) x (variance in {0.05,1,3}) x (duration in {1,2,3}) x {voiced, unvoiced}, for each of 8 window sets {static; +delta; +delta+delta-delta; width-5; width-3 delta with width-5 delta-delta; width-5 delta with width-3 delta-delta; even lengths 2 and 4; backward difference only} and vector lengths {1,2}, on the real MlpgAdjust::create (every fourth case with a window set that went through its Serialize/Deserialize round trip; every fifth case followed by a second create() on the same object with other durations); oracle = dense Gaussian elimination of the definition, rel. tolerance 1e-9; distinct = distinct (state sequence, window set, vector length); non-trivial = every case (each is compared frame by frame)");
+    rep.set_rule("SCOPE: full product over 1..N states of per-state symbols (mean in 3 values) x (variance in {0.05,1,3}) x (duration in {1,2,3}) x {voiced, unvoiced}, for each of 12 window sets {static; +delta; +delta+delta-delta; width-5; width-3 delta with width-5 delta-delta; width-5 delta with width-3 delta-delta; even lengths 2 and 4; backward difference only; four windows; a zero-padded static window with and without dynamic windows} and vector lengths {1,2}, on the real MlpgAdjust::create (every fourth case with a window set that went through its Serialize/Deserialize round trip; every fifth case followed by a second create() on the same object with other durations); oracle = dense Gaussian elimination of the definition, rel. tolerance 1e-9; distinct = distinct (state sequence, window set, vector length); non-trivial = every case (each is compared frame by frame)");
     rep.assume("variances within [0.05,3]; state counts/durations beyond the stated bound are covered only by the periodic families of the thorough tier");
     let st = Stats { island1: Default::default(), island2: Default::default(), all_unvoiced: Default::default(), ends_unvoiced: Default::default(), short_island_wide: Default::default(), worst: std::sync::Mutex::new(0.0) };
     let full = alphabet(&[1, 2, 3]);
@@ -215,7 +218,7 @@ pub fn run(tier: Tier) -> i32 {
     let mut cases = 0u64;
     for n in 1..=max_states {
         let total = full.len().pow(n as u32);
-        for wset in 0..8 {
+        for wset in 0..12 {
             for vlen in [1usize, 2] {
                 // vector length 2 doubles the work without new structure beyond the stride: restrict to n <= 3
                 if vlen == 2 && n > 3 {
@@ -250,7 +253,7 @@ pub fn run(tier: Tier) -> i32 {
         }
         let n = max_states + 1;
         let total = red16.len().pow(n as u32);
-        for wset in 0..8 {
+        for wset in 0..12 {
             cases += total as u64;
             rep.par_for(total, 256, "C05 part 2", |code| {
                 let mut c = code;
@@ -276,7 +279,7 @@ pub fn run(tier: Tier) -> i32 {
         ];
         for n in 5..=6usize {
             let total = red.len().pow(n as u32);
-            for wset in 0..8 {
+            for wset in 0..12 {
                 for vlen in [1usize, 3, 4] {
                     cases += total as u64;
                     rep.par_for(total, 64, "C05 part 3", |code| {
@@ -304,7 +307,7 @@ pub fn run(tier: Tier) -> i32 {
         }
         for n in 1..=3usize {
             let total = long.len().pow(n as u32);
-            for wset in 0..8 {
+            for wset in 0..12 {
                 cases += total as u64;
                 rep.par_for(total, 64, "C05 part 4", |code| {
                     let mut c = code;
@@ -334,7 +337,7 @@ pub fn run(tier: Tier) -> i32 {
                 }
             }
         }
-        for wset in 0..8 {
+        for wset in 0..12 {
             cases += pats.len() as u64;
             rep.par_for(pats.len(), 8, "C05 part 5", |i| {
                 let syms: Vec<Sym> = (0..60).map(|k| pats[i][k % pats[i].len()]).collect();
@@ -344,7 +347,7 @@ pub fn run(tier: Tier) -> i32 {
     }
     rep.nontrivial.store(cases, Ordering::Relaxed);
     rep.states.store(cases, Ordering::Relaxed);
-    rep.note("bounds", json!({"max_states_full_product": max_states, "per_state_alphabet": full.len(), "means": MEANS, "variances": VARS, "durations": [1,2,3], "window_sets": 8, "vector_lengths": [1,2],
+    rep.note("bounds", json!({"max_states_full_product": max_states, "per_state_alphabet": full.len(), "means": MEANS, "variances": VARS, "durations": [1,2,3], "window_sets": 12, "vector_lengths": [1,2],
         "worst_relative_error": *st.worst.lock().unwrap(),
         "islands_len1": st.island1.load(Ordering::Relaxed), "islands_len2": st.island2.load(Ordering::Relaxed), "all_unvoiced": st.all_unvoiced.load(Ordering::Relaxed),
         "unvoiced_both_ends": st.ends_unvoiced.load(Ordering::Relaxed), "width5_with_short_island": st.short_island_wide.load(Ordering::Relaxed)}));
